@@ -188,6 +188,21 @@ def run_property(mod, pid, tier, seed, replay=None):
         for c, text in bad[:20]:
             rep.violation("correspondence", "bit-level: " + text,
                           {"case": case_to_json(c), "correspondence": text, "stream": c.tag})
+    sem_only = [o for o in proof.get("semantic_only", []) if ("gen_%s_eq" % o) in core.GEN_THEOREMS.get(pid, [])]
+    if sem_only and not replay:
+        # the source of these operators was rewritten in a way only the real-number tie survives: their rounding may have
+        # changed; search their float behaviour much harder (see sl/deep.py)
+        from . import deep
+        from .props import c19 as _c19
+        ndeep, hits = deep.search(rng, sem_only, 6000000 if tier == "quick" else 40000000)
+        rep.cov["float_rewrite_search"] = {"operators": sem_only, "cases": ndeep, "rejections": len(hits)}
+        if hits:
+            hm, _ = core.run_model([c for c, _ in hits])
+            for (c, r), m in zip(hits, hm):
+                for p_ in (_c19.predicates(c, r, m) or [])[:1]:
+                    rep.violation("predicate", p_, {"case": case_to_json(c), "implementation": list(map(str, r)),
+                                                    "model": [str(q) for q in m[1]] if m[0] == "OK" else "absent",
+                                                    "failed_predicate": p_})
     if replay:
         for c, ri, rm in zip(cases, impl, model):
             print("replay case:", c.impl_line())
